@@ -291,7 +291,8 @@ pub fn gen_sid(r: &mut Rng, allow_dup_variants: bool) -> SId {
     if r.chance(1, 2) {
         id.region = Some(gen_region(r));
     }
-    let nv = *r.pick(&[0usize, 0, 0, 1, 1, 2, 3, 4]);
+    // long tail (1/16): lists well beyond any small-buffer / small-list threshold
+    let nv = if r.chance(1, 16) { 5 + r.below(8) } else { *r.pick(&[0usize, 0, 0, 1, 1, 2, 3, 4]) };
     for _ in 0..nv {
         let v = gen_variant(r);
         if !allow_dup_variants && id.variants.iter().any(|x| x.eq_ignore_ascii_case(&v)) {
@@ -319,7 +320,8 @@ pub fn gen_sloc(r: &mut Rng, dup_attrs: bool, dup_variants: bool) -> SLoc {
         // unicode
         let mut attrs = vec![];
         let mut kws: Vec<(String, Vec<String>)> = vec![];
-        let na = *r.pick(&[0usize, 0, 1, 2, 3]);
+        let long_tail = r.chance(1, 16);
+        let na = if long_tail { 4 + r.below(9) } else { *r.pick(&[0usize, 0, 1, 2, 3]) };
         for _ in 0..na {
             let a = gen_3_8(r, ATTRS);
             if !dup_attrs && attrs.iter().any(|x: &String| x.eq_ignore_ascii_case(&a)) {
@@ -331,13 +333,13 @@ pub fn gen_sloc(r: &mut Rng, dup_attrs: bool, dup_variants: bool) -> SLoc {
             let d = r.pick(&attrs).clone();
             attrs.push(d);
         }
-        let nk = *r.pick(&[0usize, 1, 1, 2, 3, 4]);
+        let nk = if long_tail { 4 + r.below(6) } else { *r.pick(&[0usize, 1, 1, 2, 3, 4]) };
         for _ in 0..nk {
             let k = gen_ukey(r);
             if kws.iter().any(|(x, _)| x.eq_ignore_ascii_case(&k)) {
                 continue;
             }
-            let nv = *r.pick(&[0usize, 1, 1, 1, 2, 3]);
+            let nv = if long_tail && r.chance(1, 3) { 4 + r.below(4) } else { *r.pick(&[0usize, 1, 1, 1, 2, 3]) };
             let vs = (0..nv).map(|_| gen_3_8(r, UTYPES)).collect();
             kws.push((k, vs));
         }
@@ -349,13 +351,14 @@ pub fn gen_sloc(r: &mut Rng, dup_attrs: bool, dup_variants: bool) -> SLoc {
     if shape & 2 != 0 {
         let tl = if r.chance(2, 3) { Some(gen_sid(r, dup_variants)) } else { None };
         let mut fs: Vec<(String, Vec<String>)> = vec![];
-        let nf = if tl.is_some() { *r.pick(&[0usize, 0, 1, 2, 3]) } else { *r.pick(&[1usize, 1, 2, 3]) };
+        let long_t = r.chance(1, 16);
+        let nf = if long_t { 4 + r.below(6) } else if tl.is_some() { *r.pick(&[0usize, 0, 1, 2, 3]) } else { *r.pick(&[1usize, 1, 2, 3]) };
         for _ in 0..nf {
             let k = gen_tkey(r);
             if fs.iter().any(|(x, _)| x.eq_ignore_ascii_case(&k)) {
                 continue;
             }
-            let nv = *r.pick(&[1usize, 1, 1, 2, 3]);
+            let nv = if long_t && r.chance(1, 3) { 4 + r.below(4) } else { *r.pick(&[1usize, 1, 1, 2, 3]) };
             let vs = (0..nv).map(|_| gen_3_8(r, TVALUES)).collect();
             fs.push((k, vs));
         }
@@ -365,7 +368,7 @@ pub fn gen_sloc(r: &mut Rng, dup_attrs: bool, dup_variants: bool) -> SLoc {
         l.t = Some((tl, fs));
     }
     if shape & 4 != 0 {
-        let n = 1 + r.below(4);
+        let n = if r.chance(1, 16) { 5 + r.below(10) } else { 1 + r.below(4) };
         l.x = Some((0..n).map(|_| gen_private(r)).collect());
     }
     l
